@@ -113,7 +113,7 @@ def pick_paths(rng, st, prof, kind):
     elif kind == "rm":
         pool = st.tracked * 2 + st.tdirs
     elif kind == "restore":
-        pool = st.tracked * 2 + st.tdirs + [p for p in st.tracked if p not in st.s.files]
+        pool = st.tracked * 2 + st.tdirs + [p for p in st.tracked if p not in st.s.files] + [b"."]
     elif kind == "restore-staged":
         head = []
         try:
@@ -122,7 +122,7 @@ def pick_paths(rng, st, prof, kind):
                 head = [p for p, _ in st.s.flatten(st.s.commit(hb)["tree"])]
         except Exception:
             head = []
-        pool = st.tracked + head + st.tdirs + sorted({d for p in head for d in parents(p)})
+        pool = st.tracked + head + st.tdirs + sorted({d for p in head for d in parents(p)}) + [b".", b"."]
     r = rng.random()
     if not pool or r < prof.get("p_invalid", 0.08):
         return [rng.choice([b"nope", b"no/such", new_path(rng, prof), b"d", b"ad"])]
